@@ -47,7 +47,11 @@ def run_op(h, op, ctx):
     """apply one operation; returns a picklable observation"""
     k = op[0]
     if k == 'set':
-        h[op[1]] = op[2]
+        v = op[2]
+        if v == '<UNENCODABLE>':
+            from vfw.engines import archmc
+            v = archmc.UNENC         # a value no encoder can store (its __reduce__ / __repr__ raise)
+        h[op[1]] = v
         return None
     if k == 'update':
         h.update(dict(op[1]))
